@@ -677,6 +677,10 @@ class StmtMixin:
                     head.vars.pop(n, None)
         for u in unbound:
             head.vars.pop(u, None)
+        # ghost: the values at the head of this iteration, for hints that relate the state before and after the body
+        for n_ in list(head.vars):
+            if not n_.startswith("_"):
+                head.vars["_at_head_" + n_] = head.vars[n_]
         self.assume_invs(head, spec)
         out = []
         a, b = self.fork(head, kk < count)
